@@ -843,7 +843,7 @@ type NotNode struct {
 }
 
 func (n *NotNode) String() string {
-	return "not " + n.Arg.String()
+	return "not " + operandString(n.Arg)
 }
 
 func (n *NotNode) Children() []Node {
@@ -856,7 +856,7 @@ type NegateNode struct {
 }
 
 func (n *NegateNode) String() string {
-	return "-" + n.Arg.String()
+	return "-" + operandString(n.Arg)
 }
 
 func (n *NegateNode) Children() []Node {
@@ -870,7 +870,7 @@ type BinaryOpNode struct {
 }
 
 func (n *BinaryOpNode) String() string {
-	return n.Arg1.String() + " " + n.Name + " " + n.Arg2.String()
+	return operandString(n.Arg1) + " " + n.Name + " " + operandString(n.Arg2)
 }
 
 func (n *BinaryOpNode) Children() []Node {
@@ -894,13 +894,33 @@ type (
 	ElvisNode struct{ BinaryOpNode }
 )
 
+// operatorNode is implemented by the nodes that apply an operator.
+type operatorNode interface {
+	isOperator()
+}
+
+func (n *NotNode) isOperator()      {}
+func (n *NegateNode) isOperator()   {}
+func (n *BinaryOpNode) isOperator() {}
+func (n *TernNode) isOperator()     {}
+
+// operandString returns the source of n as an operand of an operator:
+// operator applications are parenthesized, so that the printed expression
+// parses back to the same tree whatever the precedence of the operators.
+func operandString(n Node) string {
+	if _, ok := n.(operatorNode); ok {
+		return "(" + n.String() + ")"
+	}
+	return n.String()
+}
+
 type TernNode struct {
 	Pos
 	Arg1, Arg2, Arg3 Node
 }
 
 func (n *TernNode) String() string {
-	return n.Arg1.String() + "?" + n.Arg2.String() + ":" + n.Arg3.String()
+	return operandString(n.Arg1) + " ? " + operandString(n.Arg2) + " : " + operandString(n.Arg3)
 }
 
 func (n *TernNode) Children() []Node {
